@@ -298,11 +298,19 @@ def destsOf : List Obs → List (Nat × Nat)
 def judge (nw : Nat) (conc : Bool) (h : List Obs) : Acc :=
   h.foldl Acc.stepObs { s := init nw conc, dest := destsOf h }
 
-/-- final verdict: the replay succeeded, and (when `join` has returned) no receiver of an accepted
-`dispatch` is left unresolved in the model either -/
-def verdict (a : Acc) : String :=
-  match a.err with
+/-- the schedule the acceptor has constructed (oldest event first) -/
+def witness (nw : Nat) (conc : Bool) (h : List Obs) : List Event := (judge nw conc h).log.reverse
+
+/-- the history is accepted: the replay found no contradiction, and the constructed schedule, run once more
+from the initial state through `run?` alone, is a valid schedule (this re-check makes the soundness of
+`accept` independent of the replay code: see `accepts_sound`) -/
+def accepts (nw : Nat) (conc : Bool) (h : List Obs) : Bool :=
+  (judge nw conc h).err.isNone && (run? (init nw conc) (witness nw conc h)).isSome
+
+def verdict (nw : Nat) (conc : Bool) (h : List Obs) : String :=
+  if accepts nw conc h then "accept" else
+  match (judge nw conc h).err with
   | some why => s!"reject {why}"
-  | none => "accept"
+  | none => "reject invalid-witness"
 
 end Compio.Dispatcher
